@@ -9,6 +9,7 @@ which is the lattice Fourier sum of the property statement with the multiplicity
 import z3
 
 from pvc.core import Contract, LoopSpec
+from pvc.cexec import NS, tdiv
 from pvc.spec import RecSum
 
 F = "c/dynmat.c"
@@ -16,6 +17,7 @@ PI = z3.Real("PI")
 I = z3.IntSort()
 FC0 = z3.Int("fc_dim0")        # ghost: leading dimension of fc (num_satom for full, num_patom for compact)
 NSV = z3.Int("n_svecs")        # ghost: number of rows of svecs
+NCELL = z3.Int("n_cells")      # ghost: num_satom == n_cells * num_patom
 
 SHAPES = {
     "dynamical_matrix": lambda P: [3 * P.num_patom, 3 * P.num_patom, 2],
@@ -44,10 +46,27 @@ def wf_maps(V):
     return out
 
 
+def alias(V, **names):
+    """view with parameter arrays available under the canonical names used by Spec (q, mass, ...)"""
+    a = dict(V.a.__dict__)
+    nul = dict(V.null.__dict__) if V.null is not None else {}
+    for new, old in names.items():
+        if old in a:
+            a[new] = a[old]
+        if old in nul:
+            nul[new] = nul[old]
+    d = dict(V.__dict__)
+    d["a"] = NS(a)
+    d["null"] = NS(nul)
+    if d.get("old") is not None:
+        d["old"] = alias(d["old"], **names)
+    return NS(d)
+
+
 class Spec:
     """spec functions over a view V (pre-state arrays)"""
 
-    def __init__(self, V, j=None):
+    def __init__(self, V, cs=None, cs_null=None):
         self.V = V
         q, sv, mu = V.a.q, V.a.svecs, V.a.multi
         fc, p2s = V.a.fc, V.a.p2s_map
@@ -60,14 +79,19 @@ class Spec:
         sin = z3.Function("c_sin", z3.RealSort(), z3.RealSort())
         self.cosS = RecSum("cosS", [I, I], lambda k, i, l: cos(phase(k, i, l)) / z3.ToReal(mu[k, i, 0]))
         self.sinS = RecSum("sinS", [I, I], lambda k, i, l: sin(phase(k, i, l)) / z3.ToReal(mu[k, i, 0]))
-        has_cs = "charge_sum" in V.a
-        cs_null = V.null["charge_sum"] if "charge_sum" in V.null else z3.BoolVal(True)
+        if cs is None and "charge_sum" in V.a:
+            cs = V.a.charge_sum
+        if cs_null is None:
+            cs_null = V.null["charge_sum"] if (V.null is not None and "charge_sum" in V.null) else z3.BoolVal(True)
+        cs_null = z3.simplify(cs_null) if isinstance(cs_null, z3.ExprRef) else z3.BoolVal(bool(cs_null))
 
         def fcel(i, j, k, a, b):
             base = fc[p2s[i], k, a, b]
-            if has_cs:
-                return z3.If(cs_null, base, base + V.a.charge_sum[i, j, a, b])
-            return base
+            if cs is None or z3.is_true(cs_null):
+                return base
+            if z3.is_false(cs_null):
+                return base + cs[i, j, a, b]
+            return z3.If(cs_null, base, base + cs[i, j, a, b])
         self.fcel = fcel
         if "s2p_map" in V.a:
             s2p = V.a.s2p_map
@@ -276,3 +300,161 @@ def dynmat_at_q_contract():
                     requires=req, ensures=ens, modifies=("dynamical_matrix",),
                     loops={0: LoopSpec(inv_ij), 1: LoopSpec(inv_i), 2: LoopSpec(inv_j)},
                     use_contracts={"get_dynmat_ij", "make_Hermitian"})
+
+
+# ------------------------------------------------------------------ NAC helpers (C08)
+def qZ(q, born, a, x):
+    """(q . Z_a)_x = sum_k q_k Z_a[k][x]"""
+    return q[0] * born[a, 0, x] + q[1] * born[a, 1, x] + q[2] * born[a, 2, x]
+
+
+def qeq(q, eps):
+    return sum(q[i] * eps[i, j] * q[j] for i in range(3) for j in range(3))
+
+
+def get_q_cart_contract():
+    return Contract(F, "get_q_cart", shapes={"q_cart": lambda P: [3], "q": lambda P: [3], "reciprocal_lattice": lambda P: [3, 3]},
+                    modifies=("q_cart",),
+                    ensures=lambda V: [("q_cart[%d]" % i, V.a.q_cart[i] == sum(V.old.a.reciprocal_lattice[i, j] * V.old.a.q[j] for j in range(3)))
+                                       for i in range(3)])
+
+
+def get_dielectric_part_contract():
+    return Contract(F, "get_dielectric_part", shapes={"q_cart": lambda P: [3], "dielectric": lambda P: [3, 3]},
+                    ensures=lambda V: [("q.eps.q", V.ret == qeq(V.a.q_cart, V.a.dielectric))])
+
+
+def charge_sum_contract():
+    a_, b_, x_, y_ = z3.Ints("a_ b_ x_ y_")
+
+    def inv0(V):
+        qb = V.a.q_born
+        return [("range", z3.And(V.v.i >= 0, V.v.i <= V.p.num_patom)),
+                ("zero", z3.ForAll([a_, x_], z3.Implies(z3.And(a_ >= 0, a_ < V.v.i, x_ >= 0, x_ < 3), qb[a_, x_] == 0)))]
+
+    def inv2(V):
+        qb = V.a.q_born
+        n = V.p.num_patom
+        return [("range", z3.And(V.v.i >= 0, V.v.i <= n)),
+                ("qb", z3.ForAll([a_, x_], z3.Implies(z3.And(a_ >= 0, a_ < n, x_ >= 0, x_ < 3),
+                                                       qb[a_, x_] == z3.If(a_ < V.v.i, qZ(V.a.q_cart, V.a.born, a_, x_), 0))))]
+
+    def cs_val(V, a, b, x, y):
+        # in terms of the q_born scratch array (its meaning is the separate invariant 'qb'): keeps the
+        # quantified facts free of products of sums
+        return V.a.q_born[a, x] * V.a.q_born[b, y] * V.p.factor
+
+    def inv5(V):
+        n = V.p.num_patom
+        qb = V.a.q_born
+        return [("range", z3.And(V.v.i >= 0, V.v.i <= n)),
+                ("qb", z3.ForAll([a_, x_], z3.Implies(z3.And(a_ >= 0, a_ < n, x_ >= 0, x_ < 3), qb[a_, x_] == qZ(V.a.q_cart, V.a.born, a_, x_)))),
+                ("cs", z3.ForAll([a_, b_, x_, y_], z3.Implies(z3.And(a_ >= 0, a_ < V.v.i, b_ >= 0, b_ < n, x_ >= 0, x_ < 3, y_ >= 0, y_ < 3),
+                                                               V.a.charge_sum[a_, b_, x_, y_] == cs_val(V, a_, b_, x_, y_))))]
+
+    def inv6(V):
+        n = V.p.num_patom
+        i, j = V.v.i, V.v.j
+        return [("range", z3.And(i >= 0, i < n, j >= 0, j <= n)),
+                ("cs", z3.ForAll([a_, b_, x_, y_], z3.Implies(
+                    z3.And(a_ >= 0, b_ >= 0, b_ < n, x_ >= 0, x_ < 3, y_ >= 0, y_ < 3, z3.Or(a_ < i, z3.And(a_ == i, b_ < j))),
+                    V.a.charge_sum[a_, b_, x_, y_] == cs_val(V, a_, b_, x_, y_))))]
+
+    def ens(V):
+        n = V.p.num_patom
+        return [("charge_sum", z3.ForAll([a_, b_, x_, y_], z3.Implies(
+            z3.And(a_ >= 0, a_ < n, b_ >= 0, b_ < n, x_ >= 0, x_ < 3, y_ >= 0, y_ < 3),
+            V.a.charge_sum[a_, b_, x_, y_] == cs_val(V.old, a_, b_, x_, y_) if False else
+            V.a.charge_sum[a_, b_, x_, y_] == qZ(V.old.a.q_cart, V.old.a.born, a_, x_) * qZ(V.old.a.q_cart, V.old.a.born, b_, y_) * V.p.factor)))]
+
+    def gen(rnd):
+        import numpy as np
+        n = rnd.randint(0, 3)
+        return {"charge_sum": np.zeros((n, n, 3, 3)), "num_patom": n, "factor": rnd.uniform(-2, 2),
+                "q_cart": np.array([rnd.uniform(-1, 1) for _ in range(3)]),
+                "born": np.array([rnd.uniform(-2, 2) for _ in range(9 * n)]).reshape(n, 3, 3)}
+    return Contract(F, "dym_get_charge_sum",
+                    shapes={"charge_sum": lambda P: [P.num_patom, P.num_patom, 3, 3], "q_cart": lambda P: [3], "born": lambda P: [P.num_patom, 3, 3]},
+                    local_shapes={"q_born": lambda V: [V.p.num_patom, 3]},
+                    requires=lambda V: [V.p.num_patom >= 0], modifies=("charge_sum",), ensures=ens,
+                    loops={0: LoopSpec(inv0), 2: LoopSpec(inv2), 5: LoopSpec(inv5), 6: LoopSpec(inv6)}, gen=gen, lib="dynmat",
+                    abstract_mul=True)
+
+
+WANT_NAMES = dict(q="qpoint", mass="masses", dynamical_matrix="dynamical_matrices")
+WANT_SHAPES = dict(SHAPES)
+WANT_SHAPES.update({"dynamical_matrices": SHAPES["dynamical_matrix"], "qpoint": lambda P: [3], "masses": SHAPES["mass"],
+                    "born": lambda P: [P.num_patom, 3, 3], "dielectric": lambda P: [3, 3], "reciprocal_lattice": lambda P: [3, 3],
+                    "q_direction": lambda P: [3], "q_dir_cart": lambda P: [3]})
+
+
+def herm_post(V, S, D, n3, mass_view):
+    x, y = z3.Ints("x y")
+    sq = z3.Function("c_sqrt", z3.RealSort(), z3.RealSort())
+    ns = V.p.num_satom
+
+    def Ure(a, b):
+        return S.Tre(a / 3, b / 3, a % 3, b % 3, ns) / sq(mass_view[a / 3] * mass_view[b / 3])
+
+    def Uim(a, b):
+        return S.Tim(a / 3, b / 3, a % 3, b % 3, ns) / sq(mass_view[a / 3] * mass_view[b / 3])
+    return z3.ForAll([x, y], z3.Implies(z3.And(x >= 0, x < n3, y >= 0, y < n3),
+                                        z3.And(D[x, y, 0] == (Ure(x, y) + Ure(y, x)) / 2, D[x, y, 1] == (Uim(x, y) - Uim(y, x)) / 2)))
+
+
+def dynmat_want_contract():
+    """Wang NAC: the charge-sum term added to every force-constant element is
+    (nac_factor / (N_s/N_p)) (n.Z_i)_a (n.Z_j)_b / (n.eps.n), n = q (Cartesian) or the given direction at Gamma."""
+    a_, b_, x_, y_ = z3.Ints("a_ b_ x_ y_")
+    i_ = z3.Int("i_")
+    sq = z3.Function("c_sqrt", z3.RealSort(), z3.RealSort())
+
+    def qcart(V):
+        return [sum(V.a.reciprocal_lattice[i, j] * V.a.qpoint[j] for j in range(3)) for i in range(3)]
+
+    def req(V0):
+        V = alias(V0, **WANT_NAMES)
+        qc = qcart(V0)
+        norm = sq(qc[0] * qc[0] + qc[1] * qc[1] + qc[2] * qc[2])
+        small = norm < V0.p.q_zero_tolerance
+        dn, dcn = V0.null.q_direction, V0.null.q_dir_cart
+        return wf_maps(V) + [
+            z3.ForAll([i_], z3.Implies(z3.And(i_ >= 0, i_ < V0.p.num_patom), V0.a.masses[i_] > 0)),
+            NCELL >= 1, V0.p.num_satom == NCELL * V0.p.num_patom, dn == dcn,
+            z3.Implies(z3.Not(small), qeq(qc, V0.a.dielectric) != 0),
+            z3.Implies(z3.And(small, z3.Not(dn)), qeq([V0.a.q_dir_cart[k] for k in range(3)], V0.a.dielectric) != 0)]
+
+    def ens(V0):
+        V = alias(V0, **WANT_NAMES)
+        old = V.old
+        qc = qcart(V0.old)
+        norm = sq(qc[0] * qc[0] + qc[1] * qc[1] + qc[2] * qc[2])
+        small = norm < V0.p.q_zero_tolerance
+        dn = V0.null.q_direction
+        n3 = 3 * V0.p.num_patom
+        D = V0.a.dynamical_matrices
+        np_ = V0.p.num_patom
+        nn = tdiv(V0.p.num_satom, np_)
+        out = []
+        S_plain = Spec(old, cs_null=True)
+        out.append(("Gamma without direction: plain herm(Dspec)", z3.Implies(z3.And(small, dn), herm_post(V0, S_plain, D, n3, old.a.mass))))
+        if "charge_sum" in V0.a:
+            cs = V0.a.charge_sum
+            S_cs = Spec(old, cs=cs, cs_null=False)
+            out.append(("with charge sum: herm(Dspec + charge sum)", z3.Implies(z3.Not(z3.And(small, dn)), herm_post(V0, S_cs, D, n3, old.a.mass))))
+            born, eps = V0.old.a.born, V0.old.a.dielectric
+            for lab, cond, qq in (("|q| >= tol", z3.Not(small), qc),
+                                  ("Gamma with direction", z3.And(small, z3.Not(dn)), [V0.old.a.q_dir_cart[k] for k in range(3)] if "q_dir_cart" in V0.old.a else None)):
+                if qq is None:
+                    continue
+                fac = V0.p.nac_factor / z3.ToReal(nn) / qeq(qq, eps)
+                out.append(("charge sum, " + lab, z3.Implies(cond, z3.ForAll([a_, b_, x_, y_], z3.Implies(
+                    z3.And(a_ >= 0, a_ < np_, b_ >= 0, b_ < np_, x_ >= 0, x_ < 3, y_ >= 0, y_ < 3),
+                    cs[a_, b_, x_, y_] == qZ(qq, born, a_, x_) * qZ(qq, born, b_, y_) * fac)))))
+        return out
+    return Contract(F, "get_dynmat_want", shapes=WANT_SHAPES, nullable=("q_direction", "q_dir_cart"), macros={"PI": PI},
+                    local_shapes={"charge_sum": lambda V: [V.p.num_patom, V.p.num_patom, 3, 3]},
+                    requires=req, ensures=ens, modifies=("dynamical_matrices",), split=1, abstract_mul=True,
+                    derived=lambda V: [("num_satom / num_patom == n_cells", tdiv(V.p.num_satom, V.p.num_patom) == NCELL,
+                                        [V.p.num_patom >= 1, NCELL >= 1, V.p.num_satom == NCELL * V.p.num_patom])],
+                    use_contracts={"get_q_cart", "dym_get_charge_sum", "get_dielectric_part", "dym_get_dynamical_matrix_at_q"})
